@@ -36,6 +36,19 @@ class CharsIter(It):
         if self.lo >= self.hi: return STOP
         self.hi -= 1; return self.s[self.hi]
     def clone(self): return CharsIter(self.s, self.lo, self.hi)
+class CharIndices(It):
+    def __init__(self, I, s):
+        self.items = []; pos = 0
+        for c in s:
+            self.items.append((pos, c)); pos += I.char_width(c)
+        self.i = 0
+    def next(self, I):
+        if self.i >= len(self.items): return STOP
+        p, c = self.items[self.i]; self.i += 1
+        return TUP(p, c)
+    def next_back(self, I):
+        if self.i >= len(self.items): return STOP
+        p, c = self.items.pop(); return TUP(p, c)
 class ListIter(It):
     """owning iterator over python values"""
     def __init__(self, items): self.items = list(items); self.i = 0
@@ -347,6 +360,8 @@ def install(prog):
         return Opaque('bytes', I.str_of(a[0]))
     @M('<impl str>::chars')
     def _(I, a, c): return CharsIter(I.str_of(a[0]))
+    @M('<impl str>::char_indices')
+    def _(I, a, c): return CharIndices(I, I.str_of(a[0]))
     @M('<impl str>::to_string', '<impl str>::to_owned')
     def _(I, a, c): return RString(I.str_of(a[0]))
 
@@ -919,6 +934,34 @@ def install(prog):
         raise Unsupported('collect into ' + ty)
     @M('Range::contains')
     def _(I, a, c): raise Unsupported('Range::contains')
+
+    # ---------------- lazy_static / Mutex ---------------------------------------------------------
+    def lazy_deref(I, a, c):
+        import re as _re
+        m = _re.match(r'^<(\w+) as Deref>::deref$', c.strip())
+        name = m.group(1) if m else None
+        ret = I.prog.lazy_statics.get(name)
+        if ret is None: raise Unsupported('call ' + c)
+        key = 'lazy:' + name
+        if key not in I.globals:
+            if 'HashMap' in ret: inner = RMap('map')
+            elif 'HashSet' in ret: inner = RMap('set')
+            else:
+                h = I.prog.models.get('@lazy:' + name)
+                if h is None: raise Unsupported('lazy static ' + name + ': ' + ret)
+                I.globals[key] = [h(I)]
+                return Ref(I.globals[key], 0)
+            I.globals[key] = [Agg('Mutex', [inner]) if 'Mutex' in ret else inner]
+        return Ref(I.globals[key], 0)
+    prog.model_patterns.append((re.compile(r'^<[A-Z][A-Z0-9_]+ as Deref>::deref$'), lazy_deref))
+    @M('Mutex::new')
+    def _(I, a, c): return Agg('Mutex', [a[0]])
+    @M('Mutex::lock', 'Mutex::try_lock')
+    def _(I, a, c):
+        m = I.deref(a[0])
+        return OK(Agg('MutexGuard', [Ref(m.f, 0)]))
+    @M('<MutexGuard as Deref>::deref', '<MutexGuard as DerefMut>::deref_mut')
+    def _(I, a, c): return I.deref(a[0]).f[0]
 
     install_maps(prog)
     import models_regex, models_env
